@@ -74,6 +74,8 @@ def explain(rec: dict, clause: str) -> list[dict]:
         return [{**base, "field": f} for f in rec.get("cfg_diff", [])] or [base]
     if clause == "C09.task":
         return [{**base, "field": f} for f in rec.get("task_diff", [])] or [base]
+    if clause == "C15.trend":
+        return [{"utility": "utils.agent_trend/agent_position/best_*", "dir": rec["dir"]}]
     if clause == "C02.decode":
         return [{**base, "encoding": "perm" if rec["encoding"] == "perm" else "any"}]
     return [base]
